@@ -16,7 +16,8 @@ import os
 from fractions import Fraction
 
 from sa import AnalysisError
-from sa.astutil import dotted, src, stmt_text, params, find_stmts, calls_in, method_name, walk_no_nested, const
+from sa.boolnf import equivalent
+from sa.astutil import dotted, src, stmt_text, params, find_stmts, calls_in, method_name, walk_no_nested, const, deep_resolved
 from sa.guards import facts_at, enclosing_conditions
 
 ORACLE = os.path.join(os.path.dirname(os.path.dirname(os.path.abspath(__file__))), 'oracles', 'dimension_rules.json')
@@ -81,29 +82,30 @@ class Handler:
         self._result(rets[0].value)
 
     def _guard(self, t):
-        if isinstance(t, ast.Compare) and len(t.ops) == 1 and isinstance(t.ops[0], ast.NotEq):
-            a, b = src(t.left), src(t.comparators[0])
-            if a in self.dimnames and b in self.dimnames:
-                self.requires.append(frozenset((self.dimnames.index(a), self.dimnames.index(b))))
-                return
+        """The guard raises when `t` holds.  It is recognised by propositional equivalence (sa.boolnf) with one of the templates
+        built from the handler's own operand names, so De Morgan rewrites and reordered operands are the same guard."""
+        for i, a in enumerate(self.dimnames):
+            for j, b in enumerate(self.dimnames):
+                if i < j and equivalent(t, f'{a} != {b}'):
+                    self.requires.append(frozenset((i, j)))
+                    return
         if isinstance(t, ast.Call) and src(t.func) == 'any' and self.star and isinstance(t.args[0], ast.GeneratorExp):
             g = t.args[0]
             if isinstance(g.elt, ast.Compare) and isinstance(g.elt.ops[0], ast.NotEq) and src(g.generators[0].iter) == f'{self.star[0]}[1:]' \
                     and {src(g.elt.left), src(g.elt.comparators[0])} == {src(g.generators[0].target), f'{self.star[0]}[0]'}:
                 self.requires.append('all')
                 return
-        if isinstance(t, ast.UnaryOp) and isinstance(t.op, ast.Not) and isinstance(t.operand, ast.BoolOp) and isinstance(t.operand.op, ast.Or) and len(t.operand.values) == 2:
-            # locate-style: not (dimtol == Dimensionless and tol is None or dimtol == dimgeom)
-            absent, present = t.operand.values
-            a_names = [n for n in self.dimnames if n in {x.id for x in ast.walk(absent) if isinstance(x, ast.Name)}]
-            p_names = [src(x) for x in ([present.left] + present.comparators if isinstance(present, ast.Compare) else [])]
-            if len(a_names) == 1 and len(p_names) == 2 and all(n in self.dimnames for n in p_names) and isinstance(present.ops[0], ast.Eq):
-                if a_names[0] in p_names:
-                    other = [n for n in p_names if n != a_names[0]][0]
-                    self.requires.append(('optional', self.dimnames.index(a_names[0]), self.dimnames.index(other)))
-                else:
-                    self.requires.append(('optional-mismatch', a_names[0], tuple(p_names)))
-                return
+        # locate-style: an optional operand is either absent (dimensionless and None) or has the dimension of another operand
+        for i, (a, x) in enumerate(zip(self.dimnames, self.argnames)):
+            for j, b in enumerate(self.dimnames):
+                if i != j and equivalent(t, f'not ({a} == Dimensionless and {x} is None or {a} == {b})'):
+                    self.requires.append(('optional', i, j))
+                    return
+            for j, b in enumerate(self.dimnames):
+                for k, c in enumerate(self.dimnames):
+                    if j < k and i not in (j, k) and equivalent(t, f'not ({a} == Dimensionless and {x} is None or {b} == {c})'):
+                        self.requires.append(('optional-mismatch', a, (b, c)))
+                        return
         self.problems.append(f'unrecognised guard `{src(t)}`')
 
     def _dimexpr(self, e):
@@ -423,22 +425,30 @@ def check_algebra(model, rep):
     ok = 'isinstance(power, fractions.Fraction)' in txt and 'isinstance(base, str)' in txt
     rep.ob('R20.4', fp.key, fp.where(), ok, 'exponents must be Fractions, bases strings', statement='from_powers-types')
     ca = d.members['__call__'].func
-    facts = facts_at(ca.node, lambda s: isinstance(s, ast.Return) and src(s.value) == 'q')
-    ok = any(isinstance(n, ast.Compare) and src(n.left) == 'type(q)' and src(n.comparators[0]) == 'expect' and ((isinstance(n.ops[0], ast.NotEq) and not v) or (isinstance(n.ops[0], (ast.Eq, ast.Is)) and v))
-             for n, v in facts.facts.values())
+    # the value parsed from the string (whatever it is called) is returned only after its type was compared with the expected type
+    parsed = [s for s in find_stmts(ca.body, lambda s: isinstance(s, ast.Return) and s.value is not None) if src(deep_resolved(ca.node, s.value)).startswith('parse(')]
+    if len(parsed) != 1:
+        raise AnalysisError('Dimension.__call__: the return of the parsed value was not found')
+    qn = src(parsed[0].value)
+    facts = facts_at(ca.node, lambda s: s is parsed[0])
+    expected = ('float if not cls.__powers else cls', 'cls if cls.__powers else float')
+    cmp_ = [n for n, v in facts.facts.values() if isinstance(n, ast.Compare) and len(n.ops) == 1 and src(n.left) == f'type({qn})'
+            and ((isinstance(n.ops[0], (ast.NotEq, ast.IsNot)) and not v) or (isinstance(n.ops[0], (ast.Eq, ast.Is)) and v))]
+    ok = bool(cmp_)
+    expect_ok = any(src(deep_resolved(ca.node, n.comparators[0])) in expected for n in cmp_)
     raises = [s for s in find_stmts(ca.body, lambda s: isinstance(s, ast.Raise)) if 'DimensionError' in src(s)]
     rep.ob('R20.4', ca.key, ca.where(), ok and bool(raises), 'constructing a quantity from a string checks the parsed dimension and raises DimensionError' if ok and raises else
            'Dimension.__call__ returns the parsed quantity without comparing its type with the expected dimension', statement='call-checks-dimension')
     # every value the constructor hands out was tied to THIS dimension: the pass-through of an existing quantity too
-    for r_ in find_stmts(ca.body, lambda s: isinstance(s, ast.Return) and s.value is not None and src(s.value) != 'q'):
+    for r_ in find_stmts(ca.body, lambda s: isinstance(s, ast.Return) and s.value is not None and s is not parsed[0]):
         fr = facts_at(ca.node, lambda s, r_=r_: s is r_)
         rv = src(r_.value)
         tied = any(v and isinstance(n, ast.Call) and src(n.func) == 'isinstance' and len(n.args) == 2 and src(n.args[0]) == rv and src(n.args[1]) == 'cls' for n, v in fr.facts.values()) or \
-            any(isinstance(n, ast.Compare) and src(n.left) == f'type({rv})' and src(n.comparators[0]) in ('cls', 'expect') and ((isinstance(n.ops[0], (ast.Eq, ast.Is)) and v) or (isinstance(n.ops[0], (ast.NotEq, ast.IsNot)) and not v)) for n, v in fr.facts.values())
+            any(isinstance(n, ast.Compare) and src(n.left) == f'type({rv})' and src(deep_resolved(ca.node, n.comparators[0])) in ('cls',) + expected and ((isinstance(n.ops[0], (ast.Eq, ast.Is)) and v) or (isinstance(n.ops[0], (ast.NotEq, ast.IsNot)) and not v)) for n, v in fr.facts.values())
         rep.ob('R20.4', ca.key, ca.where(r_), tied, f'`return {rv}` is reached only for a value of this dimension (isinstance(value, cls))' if tied else
                f'`return {rv}` hands out a value that was never compared with this dimension: SI.Length(SI.Time(...)) returns the time quantity, so an assignment between different dimensions goes through the constructor unnoticed',
                statement=f'call-passthrough {rv}')
-    ok = any(isinstance(s, ast.Assign) and src(s.targets[0]) == 'expect' and src(s.value).replace(' ', '') == 'floatifnotcls.__powerselsecls' for s in ca.body)
+    ok = expect_ok
     rep.ob('R20.4', ca.key, ca.where(), ok, 'the dimensionless type expects a plain float' if ok else 'the expected type of Dimension.__call__ changed', statement='call-expect')
     wr = d.members['wrap'].func
     ok = any(isinstance(s, ast.If) and src(s.test) == 'not cls.__powers' and src(s.body[0]) == 'return value' for s in wr.body)
